@@ -1,11 +1,12 @@
 #!/bin/bash
 # multiseed.sh <tier> <seed>...   runs every check at each seed, prints one line per run, keeps full logs of non-zero exits
 tier=$1; shift
-mkdir -p /verif/.build/multiseed
+root=$(cd "$(dirname "$0")/.." && pwd)
+mkdir -p $root/.build/multiseed
 for seed in "$@"; do
   for c in C01 C02 C03 C04 C05 C06 C07 C08 C09 C10 C11 C12 C13 C14 C15 C16; do
-    out=$(VERIF_SEED=$seed /verif/check $c $tier 2>&1); rc=$?
+    out=$(VERIF_SEED=$seed $root/check $c $tier 2>&1); rc=$?
     echo "seed=$seed $c rc=$rc $(echo "$out" | grep -v KNOWN | tail -1)"
-    if [ $rc -ne 0 ]; then echo "$out" > /verif/.build/multiseed/$c.$tier.$seed.log; fi
+    if [ $rc -ne 0 ]; then echo "$out" > $root/.build/multiseed/$c.$tier.$seed.log; echo "$out" | grep -A3 "sub-check" | head -12; fi
   done
 done
